@@ -2,6 +2,7 @@ import GrinVerif.Drv.Common
 import GrinVerif.Model.Codec
 import GrinVerif.Model.CodecConn
 import GrinVerif.Model.CodecGlue
+import GrinVerif.Model.CodecSend
 import GrinVerif.Model.SerBlock
 import GrinVerif.Model.DecSer
 /-! Driver glue for the `codec` domain (line protocol handler): C11 decoder lines and C19 framing lines.
@@ -719,41 +720,103 @@ def splitEndMaxreq (impl : String) : String × Option Nat :=
 
 /-! ### C19: the glue above `conn` (`peer.rs`, `protocol.rs`) -/
 
-def showCall : Call → String
+def showSeg : SegKind → String
+  | .bitmap => "bitmap" | .output => "output" | .rangeproof => "rproof" | .kernel => "kernel"
+
+def parseSeg : String → Option SegKind
+  | "bitmap" => some .bitmap | "output" => some .output | "rproof" => some .rangeproof | "kernel" => some .kernel
+  | _ => none
+
+/-- an adapter call as the recording adapter of the harness logs it (`size`, `extra`: length and checksum
+of the archive file handed to `txhashset_write`) -/
+def showCall (size : Nat) (extra : String) : Call → String
   | .peerDifficulty a td h => s!"pdiff:{showSock a}:{td}:{h}"
+  | .totalDifficulty => "td"
+  | .totalHeight => "height"
   | .kernel h => s!"kernel:{toHex h}"
   | .tx k0 stem => s!"tx:{toHex k0}:{if stem then 1 else 0}"
   | .block h o => s!"block:{toHex h}:{o}"
   | .cblock h => s!"cblock:{toHex h}"
   | .header h => s!"header:{toHex h}"
+  | .headers n => s!"headers:{n}"
+  | .peerAddrs n => s!"peeraddrs:{n}"
   | .getBlock h => s!"getblock:{toHex h}"
   | .getTx h => s!"gettx:{toHex h}"
   | .findPeers c => s!"findpeers:{c}"
   | .locate n => s!"locate:{n}"
+  | .archiveHeader => "archhdr"
+  | .txhashsetRead => "tzread"
+  | .receiveReady => "ready"
+  | .downloadUpdate d t => s!"dl:{d}:{t}"
+  | .tmpfile => "tmpfile"
+  | .txhashsetWrite h => s!"archive:{toHex h}:{size}:{extra}"
+  | .getSegment k => s!"getseg:{showSeg k}"
+  | .recvSegment k => s!"seg:{showSeg k}"
 
 /-- the serialisation of the harness' value at the negotiated version: `[body@1,body@2,body@3,body@1000]` -/
 def bodyAt (ver : Nat) (bodies : List Bytes) : Option Bytes :=
   let i := if ver ≤ 1 then 0 else if ver = 2 then 1 else if ver = 3 then 2 else 3
   bodies[i]?
 
-def parseIn (args : List String) : Option (In × List Bytes × String) :=
+/-- `left` after each chunk the codec hands over for an attachment of `n` bytes (`Codec::next_len`:
+`min(left, 48_000)`; an empty attachment is one empty chunk) -/
+def attLefts : Nat → Nat → List Nat
+  | 0, _ => []
+  | fuel+1, left =>
+    let l := left - min left GV.Gen.Msg.ATTACHMENT_CHUNK
+    if l = 0 then [0] else l :: attLefts fuel l
+
+/-- the batches the streaming codec hands over for a `Headers` message of `n` items -/
+def hdrBatches : Nat → Nat → List Nat
+  | 0, _ => []
+  | fuel+1, n => if n ≤ GV.Gen.Msg.HEADER_BATCH_SIZE then [n] else GV.Gen.Msg.HEADER_BATCH_SIZE :: hdrBatches fuel (n - GV.Gen.Msg.HEADER_BATCH_SIZE)
+
+/-- the messages `Protocol::consume` is handed for one frame on the wire -/
+def parseIn (args : List String) : Option (List In × List Bytes × String) :=
   match args with
-  | ["ping", td, h] => do some (.ping (← td.toNat?) (← h.toNat?), [], "")
-  | ["pong", td, h] => do some (.pong (← td.toNat?) (← h.toNat?), [], "")
-  | ["banreason"] => some (.banReason, [], "")
-  | ["kernel", h] => do some (.kernel (← parseHex h), [], "")
-  | ["tx", k] => do some (.tx (← parseHex k) false, [], "")
-  | ["stem", k] => do some (.tx (← parseHex k) true, [], "")
-  | ["block", h] => do some (.block (← parseHex h), [], "")
-  | ["cblock", h] => do some (.cblock (← parseHex h), [], "")
-  | ["header", h] => do some (.header (← parseHex h), [], "")
-  | ["getblock", h, f, b] => do some (.getBlock (← parseHex h) (f = "1"), (← parseHexList b), "")
-  | ["getcblock", h, f, b] => do some (.getCompactBlock (← parseHex h) (f = "1"), (← parseHexList b), "")
-  | ["gettx", h, f, b] => do some (.getTx (← parseHex h) (f = "1"), (← parseHexList b), "")
-  | ["getpeers", c, b] => do some (.getPeerAddrs (← c.toNat?), (← parseHexList b), "")
-  | ["getheaders", n, b] => do some (.getHeaders (← n.toNat?), (← parseHexList b), "")
-  | ["archive", h, len, sum] => do some (.archive (← parseHex h) (← len.toNat?), [], sum)
+  | ["ping", td, h] => do some ([.ping (← td.toNat?) (← h.toNat?)], [], "")
+  | ["pong", td, h] => do some ([.pong (← td.toNat?) (← h.toNat?)], [], "")
+  | ["banreason"] => some ([.banReason], [], "")
+  | ["kernel", h] => do some ([.kernel (← parseHex h)], [], "")
+  | ["tx", k] => do some ([.tx (← parseHex k) false], [], "")
+  | ["stem", k] => do some ([.tx (← parseHex k) true], [], "")
+  | ["block", h] => do some ([.block (← parseHex h)], [], "")
+  | ["cblock", h] => do some ([.cblock (← parseHex h)], [], "")
+  | ["header", h] => do some ([.header (← parseHex h)], [], "")
+  | ["getblock", h, f, b] => do some ([.getBlock (← parseHex h) (f = "1")], (← parseHexList b), "")
+  | ["getcblock", h, f, b] => do some ([.getCompactBlock (← parseHex h) (f = "1")], (← parseHexList b), "")
+  | ["gettx", h, f, b] => do some ([.getTx (← parseHex h) (f = "1")], (← parseHexList b), "")
+  | ["getpeers", c, b] => do some ([.getPeerAddrs (← c.toNat?)], (← parseHexList b), "")
+  | ["getheaders", n, b] => do some ([.getHeaders (← n.toNat?)], (← parseHexList b), "")
+  | ["archive", h, len, sum] => do some ([.archive (← parseHex h) (← len.toNat?)], [], sum)
+  | ["peeraddrs", n] => do some ([.peerAddrs (← n.toNat?)], [], "")
+  | ["headers", n] => do
+    let n ← n.toNat?
+    some ((hdrBatches (n + 1) n).map .headers, [], "")
+  | ["txhashsetreq", ho, f, att, b] => do some ([.txhashsetReq (ho = "1") (f = "1")], (← parseHexList b), att)
+  | ["getseg", k, f, b] => do some ([.getSegment (← parseSeg k) (f = "1")], (← parseHexList b), "")
+  | ["seg", k] => do some ([.segment (← parseSeg k)], [], "")
   | _ => none
+
+/-- fold `Protocol::consume` over the messages of one frame (a refusal / disconnect ends it); an accepted
+archive is followed by its attachment chunks -/
+def consumeAll : Nat → Glue → List In → Glue × List Call × GOut
+  | 0, g, _ => (g, [], .none)
+  | _, g, [] => (g, [], .none)
+  | fuel+1, g, m :: ms =>
+    let (g1, calls, out) := consumeGlue g m
+    match out, m with
+    | .attachment n, .archive h _ =>
+      let chunks := (attLefts (n / GV.Gen.Msg.ATTACHMENT_CHUNK + 2) n).map fun l => In.attachment h n l
+      let (g2, c2, _) := consumeAll fuel g1 (chunks ++ ms)
+      (g2, calls ++ c2, out)
+    | .disconnect, _ => (g1, calls, out)
+    | .badMessage, _ => (g1, calls, out)
+    | _, _ =>
+      if ms.isEmpty then (g1, calls, out)
+      else
+        let (g2, c2, o2) := consumeAll fuel g1 ms
+        (g2, calls ++ c2, o2)
 
 def handleGlue (st : St) (args : List String) (impl : String) : Option (St × Verdict) :=
   let net := netAutomatedTesting
@@ -772,17 +835,17 @@ def handleGlue (st : St) (args : List String) (impl : String) : Option (St × Ve
     | none => some (st, .unknown)
   | "glue" :: "recv" :: rest =>
     match st.glue, parseIn rest with
-    | some g, some (m, bodies, extra) =>
-      let (g', calls, out) := consumeGlue g m
-      let log := calls.map showCall ++ (match out, m with
-        | .attachment n, .archive h _ => [s!"archive:{toHex h}:{n}:{extra}"]
-        | _, _ => [])
+    | some g, some (ms, bodies, extra) =>
+      let (g', calls, out) := consumeAll 1000 g ms
+      let size := match ms with | .archive _ n :: _ => n | _ => 0
+      let log := calls.map (showCall size extra)
       let resp : Option String := match out with
         | .pong td h => some (toHex (writeMessage net GV.Gen.Msg.T_Pong (writeU64 td ++ writeU64 h) []))
         | .stored t => (bodyAt g.ver bodies).map fun b =>
             -- a compact block is derived from the stored block with a fresh random nonce: type and length
             if t = GV.Gen.Msg.T_CompactBlock then s!"len:{t}:{(writeMessage net t b []).length}"
             else toHex (writeMessage net t b [])
+        | .storedAtt t => (bodyAt g.ver bodies).map fun b => toHex (writeMessage net t b []) ++ ":att:" ++ extra
         | _ => some "-"
       let closed := match out with | .disconnect => 1 | .badMessage => 1 | _ => 0
       match resp with
@@ -802,6 +865,12 @@ def handleGlue (st : St) (args : List String) (impl : String) : Option (St × Ve
         | ["stem", _k, b] => do some (.stem, false, (← parseHexList b))
         | ["blockreq", h, o, b] => do some (.blockReq (← parseHex h) (← o.toNat?), false, (← parseHexList b))
         | ["txhashsetreq", b] => do some (.txhashsetReq, false, (← parseHexList b))
+        | ["banreason", b] => do some (.banReason, false, (← parseHexList b))
+        | ["headerreq", b] => do some (.headerReq, false, (← parseHexList b))
+        | ["txreq", b] => do some (.txReq, false, (← parseHexList b))
+        | ["cblockreq", b] => do some (.cblockReq, false, (← parseHexList b))
+        | ["peerreq", b] => do some (.peerReq, false, (← parseHexList b))
+        | ["segreq", k, b] => do some (.segReq (← parseSeg k), false, (← parseHexList b))
         | _ => none
       match parsed with
       | none => some (st, .unknown)
@@ -819,11 +888,58 @@ def handleGlue (st : St) (args : List String) (impl : String) : Option (St × Ve
         | none => some (st, .unknown)
   | _ => none
 
+/-! ### C19: concurrent senders, handshake read timeouts (`Model/CodecSend.lean`) -/
+
+def handleMore (args : List String) (impl : String) : Option Verdict :=
+  match args with
+  | "csend" :: _ver :: k :: rest =>
+    match nat? k with
+    | some k =>
+      if rest.length ≠ k + 1 then some .unknown else
+      match (rest.take k).mapM parseHexList, parseHex (rest.getD k "") with
+      | some lists, some stream =>
+        -- the property fixes the answer; the driver evaluates it on the stream with the model's own header
+        -- decoder and the `fromSender` projection of `Props/C19Send`
+        let okModel := match splitFrames netAutomatedTesting (stream.length + 1) stream with
+          | some frames => isInterleaving lists frames
+          | none => false
+        if okModel then some (cmpSpec "merge" impl)
+        else if impl = "merge" then some (.fail "merge (the driver's evaluation of the received stream: NOT an interleaving of whole frames)")
+        else some (cmpSpec "merge" impl)
+      | _, _ => some .unknown
+    | none => some .unknown
+  | ["hstime", dir, g, sched] =>
+    match parseHex g, parseSched sched with
+    | some g, some sc =>
+      let ts := tagSched sc
+      let model : Option String := match dir with
+        | "accept" =>
+          some (match readMessageT handReadTimeout netAutomatedTesting GV.Gen.Msg.T_Hand (decHand .bin) ts with
+            | .timedOut => "err Timeout"
+            | .done o => match o.res with
+              | .ok h => showHs (acceptDecision g LOCAL_PROTOCOL_VERSION [] false h)
+              | .error e => "err " ++ e.name)
+        | "initiate" =>
+          some (match readMessageT shakeReadTimeout netAutomatedTesting GV.Gen.Msg.T_Shake (decShake .bin) ts with
+            | .timedOut => "err Timeout"
+            | .done o => match o.res with
+              | .ok h => showHs (initiateDecision g LOCAL_PROTOCOL_VERSION false h)
+              | .error e => "err " ++ e.name)
+        | _ => none
+      match model with
+      | some m => some (cmpModel m impl)
+      | none => some .unknown
+    | _, _ => some .unknown
+  | _ => none
+
 def handle (st : St) (args : List String) (impl : String) : St × Verdict :=
   match handleGlue st args impl with
   | some r => r
   | none =>
   match handleConn args impl with
+  | some v => (st, v)
+  | none =>
+  match handleMore args impl with
   | some v => (st, v)
   | none =>
   match args with
